@@ -702,6 +702,11 @@ def run_C16(ctx):
                             Classes='{"ListOffset","List","IndexedOption","Indexed","Regular"}')
     ctx.l2_phase("converters-strings", "Session", consts, ("l2replay", "h_c16"), invariants=["Closed", "BuffersInv"],
                  require_actions=["BuffersOp"], sample_cases=(2000 if q else 50000), timeout=1500)
+    # two-dimensional NumPy leaves of 2 x 3 / 3 x 2 / 2 x 2 elements, C-ordered or (one time in three) Fortran-ordered buffers
+    consts = session_consts(OpSet='{"buffers"}', LeafSet='{Numpy("int64", <<1, 2, 3, 4, 5, 6>>), Numpy("float64", <<1, 2, 3, 4>>)}',
+                            MaxDepth="2", MaxLen="3", Classes='{"Regular","ListOffset"}')
+    ctx.l2_phase("converters-2d-leaves", "Session", consts, ("l2replay", "h_c16"), invariants=["Closed", "BuffersInv"],
+                 require_actions=["BuffersOp", "WrapRegular"], sample_cases=(5000 if q else 100000), timeout=900)
     ctx.pychain_phase("python-chains-code-to-spec", (4000 if ctx.quick() else 60000), 5, ops={"rt_buffers", "rt_pickle", "rt_arrow"})
     return ctx.finish(rule="case = one layout; on it: to_buffers/from_buffers (dict, bytes-only and custom-key containers), pickle, a "
                            "2-way partitioning through buffers and pickle, to_numpy/from_numpy when rectilinear, to_arrow/from_arrow with "
